@@ -64,8 +64,11 @@ def gen_stmt(rng, depth):
         init_e, c, inc = e(False), e(False), e(False)
         b_src, b_sx = gen_block(rng, depth - 1)
         if rng.random() < 0.5:
-            init_src = "int i = %s;" % R(init_e)
-            init_sx = ["vardecl", "i", ["prim", "int"], T.sx(init_e), ["LIST"], "0", "0"]
+            # forInit = variableDeclaration: every primitive type, optionally final
+            fty = rng.choice(["int", "long", "float", "char", "string", "bit", "boolean"])
+            ffin = rng.random() < 0.2
+            init_src = "%s%s i = %s;" % ("final " if ffin else "", fty, R(init_e))
+            init_sx = ["vardecl", "i", ["prim", fty], T.sx(init_e), ["LIST"], "1" if ffin else "0", "0"]
         else:
             while init_e[0] in ("arrlit", "measure"):
                 init_e = e(False)
